@@ -5,6 +5,7 @@ use crate::report::*;
 pub mod common;
 pub mod c07;
 pub mod c12;
+pub mod c14;
 pub mod c16;
 pub mod c18;
 
@@ -26,6 +27,7 @@ pub fn all() -> Vec<Scenario> {
     vec![
         Scenario { name: "c07", plan: c07::plan, run: c07::run },
         Scenario { name: "c12", plan: c12::plan, run: c12::run },
+        Scenario { name: "c14", plan: c14::plan, run: c14::run },
         Scenario { name: "c16", plan: c16::plan, run: c16::run },
         Scenario { name: "c18", plan: c18::plan, run: c18::run },
     ]
